@@ -3,7 +3,9 @@ package rules
 import (
 	"go/token"
 	"go/types"
+	"strconv"
 	"strings"
+	"unicode"
 
 	"golang.org/x/tools/go/ssa"
 
@@ -407,6 +409,222 @@ var genericScope = map[string][]string{
 	"C20": {"agent", "pool", ""},
 }
 
+// trimCutsetMisuse: strings/bytes Trim, TrimLeft and TrimRight take a SET of characters. A cutset that spells a word
+// ("0x", "enode://", a key prefix turned into a string) is a prefix or suffix mistaken for a set: it also eats the
+// leading or trailing characters of the payload that happen to be in the set. Flagged: a constant cutset of two or more
+// characters that contains a letter, and any non-constant cutset.
+func trimCutsetMisuse(p *an.Prog, want func(*ssa.Function) bool) (out []string, n int) {
+	for _, fn := range p.Repo {
+		if p.IsTestFunc(fn) || isTestDoublePkg(fn) || !want(fn) {
+			continue
+		}
+		for _, c := range an.Calls(fn, false) {
+			f := an.CallObj(c)
+			if f == nil || f.Pkg() == nil || (f.Pkg().Path() != "strings" && f.Pkg().Path() != "bytes") {
+				continue
+			}
+			if nm := f.Name(); nm != "Trim" && nm != "TrimLeft" && nm != "TrimRight" {
+				continue
+			}
+			args := c.Common().Args
+			if len(args) != 2 {
+				continue
+			}
+			n++
+			cut, isConst := an.ConstString(args[1])
+			word := !isConst
+			if isConst && len([]rune(cut)) >= 2 {
+				for _, ch := range cut {
+					if unicode.IsLetter(ch) {
+						word = true
+					}
+				}
+			}
+			if word {
+				what := "a computed cutset"
+				if isConst {
+					what = "the cutset " + strconv.Quote(cut)
+				}
+				out = append(out, an.FuncName(fn)+" calls "+f.Pkg().Name()+"."+f.Name()+" with "+what+" at "+p.Pos(c.Pos())+": the argument is a set of characters, not a prefix or suffix; payload characters in the set are eaten as well (TrimPrefix/TrimSuffix cut exactly one occurrence)")
+			}
+		}
+	}
+	return out, n
+}
+
+// goCapturesLive: a goroutine started with a closure shares the closure's captured variables with its spawner. When the
+// spawner can write such a variable again after the go statement (the variable lives outside the loop that spawns, and
+// the next iteration assigns it), the goroutine reads whatever the spawner has put there by the time it runs: the next
+// message instead of its own, or a half-written value. The path from the go statement to the write must not pass the
+// variable's own declaration (a per-iteration variable is a new one each time round).
+func goCapturesLive(p *an.Prog, want func(*ssa.Function) bool) (out []string, n int) {
+	for _, fn := range p.Repo {
+		if p.IsTestFunc(fn) || isTestDoublePkg(fn) || !want(fn) {
+			continue
+		}
+		an.AllInstrs(fn, func(in ssa.Instruction) {
+			g, ok := in.(*ssa.Go)
+			if !ok {
+				return
+			}
+			n++
+			var closures []*ssa.MakeClosure
+			if mc, ok := g.Call.Value.(*ssa.MakeClosure); ok {
+				closures = append(closures, mc)
+			}
+			for _, a := range g.Call.Args {
+				if mc, ok := a.(*ssa.MakeClosure); ok {
+					closures = append(closures, mc)
+				}
+			}
+			for _, mc := range closures {
+				cfn, _ := mc.Fn.(*ssa.Function)
+				for i, b := range mc.Bindings {
+					al, ok := b.(*ssa.Alloc)
+					if !ok {
+						continue
+					}
+					// does the goroutine read it?
+					reads := false
+					if cfn != nil && i < len(cfn.FreeVars) {
+						for _, ref := range *cfn.FreeVars[i].Referrers() {
+							if u, ok := ref.(*ssa.UnOp); ok && u.Op == token.MUL {
+								reads = true
+							}
+						}
+					}
+					if !reads {
+						continue
+					}
+					isWrite := func(x ssa.Instruction) bool {
+						st, ok := x.(*ssa.Store)
+						return ok && st.Addr == ssa.Value(al)
+					}
+					isDecl := func(x ssa.Instruction) bool { return x == ssa.Instruction(al) }
+					if hit := an.PathAvoiding(fn, g, isDecl, isWrite, nil); hit != nil {
+						nm := al.Comment
+						if nm == "" {
+							nm = "a variable"
+						}
+						out = append(out, an.FuncName(fn)+": the goroutine started at "+p.Pos(g.Pos())+" reads the captured variable "+nm+", which the spawner assigns again at "+p.Pos(hit.Pos())+" while the goroutine may not have run yet: it can act on a later value than the one it was started for (or a nil one)")
+					}
+				}
+			}
+		})
+	}
+	return out, n
+}
+
+// sharedResults: a method of a lock-guarded type (a struct with a sync.Mutex or RWMutex field) never returns a slice or
+// map that is the guarded object's own storage: a slice or map field as it stands, or the bytes of a bytes.Buffer field
+// (possibly re-sliced or trimmed). The caller uses the result after the method has released the lock, while the next
+// call rewrites that storage.
+func sharedResults(p *an.Prog, want func(*ssa.Function) bool) (out []string, n int) {
+	hasLock := func(t types.Type) bool {
+		if pt, ok := t.(*types.Pointer); ok {
+			t = pt.Elem()
+		}
+		st, ok := t.Underlying().(*types.Struct)
+		if !ok {
+			return false
+		}
+		for i := 0; i < st.NumFields(); i++ {
+			if n := namedOf(st.Field(i).Type()); n != nil && n.Obj().Pkg() != nil && n.Obj().Pkg().Path() == "sync" && (n.Obj().Name() == "Mutex" || n.Obj().Name() == "RWMutex") {
+				return true
+			}
+		}
+		return false
+	}
+	for _, fn := range p.Repo {
+		if p.IsTestFunc(fn) || isTestDoublePkg(fn) || !want(fn) || fn.Parent() != nil || fn.Signature.Recv() == nil || len(fn.Params) == 0 || len(fn.Blocks) == 0 {
+			continue
+		}
+		if !hasLock(fn.Signature.Recv().Type()) {
+			continue
+		}
+		recv := fn.Params[0]
+		fromRecv := func(addr ssa.Value) bool {
+			root, _ := an.RootPath(addr)
+			if root == ssa.Value(recv) {
+				return true
+			}
+			if u, ok := root.(*ssa.UnOp); ok && u.Op == token.MUL {
+				return an.Unspill(u) == ssa.Value(recv)
+			}
+			return false
+		}
+		an.AllInstrs(fn, func(in ssa.Instruction) {
+			ret, ok := in.(*ssa.Return)
+			if !ok || (fn.Recover != nil && ret.Block() == fn.Recover) {
+				return
+			}
+			for _, res := range an.RetResults(ret) {
+				switch res.Type().Underlying().(type) {
+				case *types.Slice, *types.Map:
+				default:
+					continue
+				}
+				n++
+				seen := map[ssa.Value]bool{}
+				var walk func(v ssa.Value)
+				walk = func(v ssa.Value) {
+					if v == nil || seen[v] {
+						return
+					}
+					seen[v] = true
+					switch t := v.(type) {
+					case *ssa.Phi:
+						for _, e := range t.Edges {
+							walk(e)
+						}
+					case *ssa.Slice:
+						walk(t.X)
+					case *ssa.ChangeType:
+						walk(t.X)
+					case *ssa.Call:
+						f := an.CallObj(t)
+						if b, ok := t.Call.Value.(*ssa.Builtin); ok && an.Ident(b.Name()) == "append" {
+							walk(t.Call.Args[0])
+							return
+						}
+						if f == nil || f.Pkg() == nil {
+							return
+						}
+						if an.IsMethod(f, "bytes", "Buffer", "Bytes") && len(t.Call.Args) == 1 && fromRecv(t.Call.Args[0]) {
+							out = append(out, an.FuncName(fn)+" returns at "+p.Pos(ret.Pos())+" the bytes of its own buffer field ("+p.Pos(t.Pos())+"): the caller reads them after the lock is released, while the next call resets and refills the buffer")
+							return
+						}
+						if f.Pkg().Path() == "bytes" && strings.HasPrefix(f.Name(), "Trim") && len(t.Call.Args) > 0 {
+							walk(t.Call.Args[0]) // the Trim family returns a sub-slice of its argument
+						}
+					case *ssa.UnOp:
+						if t.Op != token.MUL {
+							return
+						}
+						if _, isFA := t.X.(*ssa.FieldAddr); isFA && fromRecv(t.X) {
+							fname := "?"
+							if fv := an.FieldOf(t.X); fv != nil {
+								fname = fv.Name()
+							}
+							out = append(out, an.FuncName(fn)+" returns at "+p.Pos(ret.Pos())+" the storage of its own field "+fname+" ("+p.Pos(t.Pos())+"): the caller uses it after the lock is released, while other calls go on changing it")
+							return
+						}
+						if al, ok := t.X.(*ssa.Alloc); ok {
+							for _, ref := range *al.Referrers() {
+								if st, ok := ref.(*ssa.Store); ok && st.Addr == ssa.Value(al) {
+									walk(st.Val)
+								}
+							}
+						}
+					}
+				}
+				walk(res)
+			}
+		})
+	}
+	return out, n
+}
+
 // RunGeneric evaluates the generic discipline rules for one property over its scope.
 func RunGeneric(prop string, p *an.Prog, r *an.Run) {
 	pk := genericScope[prop]
@@ -418,5 +636,11 @@ func RunGeneric(prop string, p *an.Prog, r *an.Run) {
 	r.Floor("effectful-loops", nLoops, 1)
 	cb, _ := cancelBeforeUse(p, scopeWant(pk))
 	r.Check(len(cb) == 0, "cancel-after-use", strings.Join(pk, ","), token.NoPos, "no context is cancelled ahead of its use", "%s", strings.Join(cb, "; "))
+	gl, _ := goCapturesLive(p, scopeWant(pk))
+	r.Check(len(gl) == 0, "go-captures-live", strings.Join(pk, ","), token.NoPos, "no goroutine reads a captured variable its spawner goes on to assign", "%s", strings.Join(gl, "; "))
+	sr, _ := sharedResults(p, scopeWant(pk))
+	r.Check(len(sr) == 0, "shared-result", strings.Join(pk, ","), token.NoPos, "no method of a lock-guarded type returns the guarded storage itself", "%s", strings.Join(sr, "; "))
+	tc, _ := trimCutsetMisuse(p, scopeWant(pk))
+	r.Check(len(tc) == 0, "trim-cutset", strings.Join(pk, ","), token.NoPos, "no Trim/TrimLeft/TrimRight is given a word for a cutset", "%s", strings.Join(tc, "; "))
 	r.Check(len(ex) == 0, "loop-visits-all", strings.Join(pk, ","), token.NoPos, "effectful collection loops are left early only under a count bound", "%s", strings.Join(ex, "; "))
 }
